@@ -30,7 +30,7 @@ doc = {
     },
     "engines": [
         {"name": "coq-model", "path": "coq/", "serves_properties": [c["property_id"] for c in checks],
-         "kind_free_text": "Coq 8.16.1 development: Prelude (Python semantics), gen (kernels regenerated from /repo by vlib/kernels.py), Model (hand-written executable model), Proofs, Properties (theorem statements + Print Assumptions)"},
+         "kind_free_text": "Coq 8.16.1 development: Prelude (Python semantics; PyAst/PyAstMut/PyWorld = deep embedding of the Python subset and its interpreter), gen (kernels regenerated from /repo by vlib/kernels.py; whole functions regenerated as syntax by vlib/flow.py), Model (hand-written executable model), Flow (worlds: what the names in the regenerated syntax mean in the model), Proofs (incl. the flow tie lemmas run W fuel k_flow_f args = model_f args), Properties (theorem statements + Print Assumptions)"},
         {"name": "modelrun", "path": "build/modelrun_<area>", "serves_properties": [c["property_id"] for c in checks],
          "kind_free_text": "OCaml extraction (ExtrOcamlBasic only) of Model/Units_<area>.v + ocaml/driver.ml; correspondence oracle"},
     ],
